@@ -21,6 +21,41 @@ CHECKS = {
    "Same input spaces as C05 plus every length 0..=65536 x 4 fills and nesting chains up to depth 8191 (the maximum that fits 64 KiB); each case runs from_bytes and Display; a panic, abort or stack overflow, or values that are not exactly the bytes after the header, is a violation.",
    "Stack bound is checked on an 8 MiB stack with the harness build profile (optimised, debug assertions on). Depth cases that exceed the wall cap are reported as caps, not verdicts.",
    "DESIGN.md §3 C06"),
+ "C02": ("E-STATE", "model_checking",
+   "explicit event-history exploration of real in-process Server objects; every emitted reply judged by an independent reference verifier",
+   "Histories (sequences of bursts: k requests, protocol mix, size, SRV) are executed on real Server objects via process_events; every reply must pass rtref::authentic (framing, both signatures under the version's contexts, window, Merkle path with the protocol's node width and leaf definition, echoed nonce, VER/VERS) and batch consistency (INDX set, PATH length, batch <= batch_size). Quick: batch_size {1,2,3,7,64} x k in 12 sizes x mixes x 3 sizes x SRV, burst pairs; thorough: every batch_size 1..=64 x every k 1..=65,128, every aligned size, burst triples. The fault-rate sub-claim is statistical (6 sigma) and labelled sampled.",
+   "Trusted: rtref verifier, sha2, ed25519-dalek. Kernel loopback delivery is synchronous (self-tested). Nonce bytes are a deterministic family, not all values.",
+   "DESIGN.md §3 C02"),
+ "C07": ("E-STATE", "model_checking",
+   "exhaustive enumeration of a structured datagram space, each datagram one history on a real in-process Server, judged by a 3-valued reference classifier",
+   "Every datagram of the space (every length of the tier's length set x 5 templates, every aligned nonce length 0..=1484 x 2 sizes x 2 protocols, every frame-length deviation, field mutants, full batches at maximum path depth) is sent to a real Server; the reply set must agree with a classifier written from the statement (must/may/must-not), every reply must be authentic and never longer than the request; a sentinel request proves the worker survived.",
+   "Trusted: rtref classifier/verifier. Random-byte family uses one fixed seeded pool (prefixes), not all byte strings.",
+   "DESIGN.md §3 C07"),
+ "C08": ("E-STATE", "model_checking",
+   "bounded-exhaustive enumeration of datagram sequences (depth 2, thorough 3) over a 15-class alphabet x log level x fault x batch size on real in-process Servers",
+   "All sequences up to the depth bound, each run two ways (step per datagram / all queued first), at every log level Off..Trace with a logger that formats every enabled record, fault_percentage {0,50}, batch_size {1,2,64}; process_events must never unwind and two sentinels (one per protocol) must be answered afterwards. Failing histories are minimised.",
+   "Log level is process-global, so levels are explored sequentially. The alphabet has one representative per guard in the anchors, not all byte strings.",
+   "DESIGN.md §3 C08"),
+ "C09": ("E-STATE", "model_checking",
+   "stateless enumeration of all event sequences up to depth 5 (thorough 7) over {C0,C1,I0,I1,X0,step} x batch_size {1,2,3} on real in-process Servers, plus differential prefix/fresh and parametric bursts for batch sizes up to 64",
+   "Every history is completed to quiescence; per socket the received datagrams must be exactly one authentic reply per accepted request sent from that socket (bound to the exact request bytes by the reference verifier), none for rejected datagrams, from the server's address, in the request's protocol. A nonce pool forces identical requests from different sockets and repeats on one socket. Differential: each suffix after three prefixes vs on a fresh server.",
+   "Trusted: rtref verifier; loopback synchronous delivery (self-tested). State hashing is used for the states count only (no merging).",
+   "DESIGN.md §3 C09"),
+ "C12": ("E-STATE", "model_checking",
+   "exhaustive truth table (VER lists up to length 6, thorough 7, over 5 version numbers x SRV absent/correct/wrong; 256 SRV bit flips) executed on real in-process Servers against a 3-valued reference classifier",
+   "Every row is one request to a real Server; must-answer / must-not-answer / may per the statement; each reply must be authentic with SREP.VER = draft-13 and VERS listing it.",
+   "Trusted: rtref classifier and verifier.",
+   "DESIGN.md §3 C12"),
+ "C13": ("E-SEQ", "exploration",
+   "bounded-exhaustive enumeration of chunkings and message sequences on the real MsgSigner/MsgVerifier, differential against one-shot ed25519-dalek",
+   "Per seed: every length 0..=4096 back-to-back on one signer, splits around the 1024-byte buffer capacity, all 2^(n-1) chunkings for n<=12 (thorough 14), all message sequences of length <=4 over 5 messages, one 32-message sequence; verifier on valid triples and every single-bit corruption of message, signature and key.",
+   "Trusted: ed25519-dalek arithmetic (RFC 8032 vectors in rtref::selftest). Seeds are a structured alphabet (20 quick / 582 thorough), not all 2^256.",
+   "DESIGN.md §3 C13"),
+ "C14": ("E-SEQ", "fault_enumeration",
+   "exhaustive fault enumeration over every blob position (bit flips, byte sets, truncations, extensions) and every provider fault, on the real EnvelopeEncryption",
+   "Round trip and leak scan for wrapped-key lengths (thorough: every 16..=1024) x every plaintext length 32..=64; on each fault base every single-bit flip, byte set 00/ff, every truncation, extension 1..=16, swapped length fields; provider error / wrong key / wrong-length key on either call. Oracle: pristine => Ok(seed); any fault => Err, never Ok and never a panic.",
+   "Harness providers authenticate their own wrapped key (as real KMS do). AES-GCM/ring is trusted to reject forged ciphertexts.",
+   "DESIGN.md §3 C14"),
 }
 
 PENDING_REASON = "check not built yet in this session (planned, see DESIGN.md §3); no claim is made until it is"
